@@ -270,12 +270,13 @@ pub fn pattern_to_value(pattern: &Pattern, env: &Environment, p: &Interpreter) -
       #[cfg(feature = "enum")]
       {
         let variant_id = pattern_tuple_struct.name.hash();
-        if let Some((enum_id, enum_def)) = p
-          .state
-          .borrow()
+        // as in structures::tuple_struct: only an unambiguous variant names its enum (HashMap order is not stable)
+        let state_brrw = p.state.borrow();
+        let mut owners = state_brrw
           .enums
           .iter()
-          .find(|(_, enm)| enm.variants.iter().any(|(known_variant, _)| *known_variant == variant_id))
+          .filter(|(_, enm)| enm.variants.iter().any(|(known_variant, _)| *known_variant == variant_id));
+        if let (Some((enum_id, enum_def)), None) = (owners.next(), owners.next())
         {
           let payload = if pattern_tuple_struct.patterns.len() == 1 {
             Some(pattern_to_value(&pattern_tuple_struct.patterns[0], env, p)?)
